@@ -154,7 +154,39 @@ def enum_negative():
     return "enum-negative", [f], [f], ["defect:enum.negative_value"]
 
 
+def selective_witness():
+    """A kept message with map fields whose value types (a message in another file, an enum) are reachable from the selected
+    rpc ONLY through the map; also a oneof-only and a nested-only type."""
+    res = File(f"{D}/res.proto", P)
+    detail = res.message("Detail"); detail.field("text", 1, "string")
+    extra = res.message("Unrelated"); extra.field("x", 1, "int32")
+    main_ = File(f"{D}/main.proto", P, deps=list(apigen.STD_DEPS) + [res.proto.name])
+    grade = main_.enum("Grade", ["GRADE_UNSPECIFIED", ("GRADE_A", 1)])
+    only_oneof = main_.message("Alt"); only_oneof.field("v", 1, "bytes")
+    req1 = main_.message("GetReportRequest"); req1.field("name", 1, "string")
+    rep = main_.message("Report")
+    rep.field("name", 1, "string").map_field("details", 2, "string", detail.fqn).map_field("grades", 3, "int32", ("enum", grade))
+    rep.field("text_alt", 4, "string", oneof="alt").field("msg_alt", 5, only_oneof.fqn, oneof="alt")
+    inner = rep.nested("Inner"); inner.field("z", 1, "fixed32")
+    rep.field("inner", 6, inner.fqn)
+    req2 = main_.message("GetOtherRequest"); req2.field("name", 1, "string")
+    other = main_.message("Other"); other.field("u", 1, extra.fqn)
+    svc = main_.service("Sel", host="sel.example.com")
+    svc.rpc("GetReport", req1.fqn, rep.fqn, http=("get", "/v1/{name=reports/*}"))
+    svc.rpc("GetOther", req2.fqn, other.fqn, http=("get", "/v1/{name=others/*}"))
+    req = apigen.request([res, main_], parameter="transport=grpc")
+    io = {f"{P}.Sel.GetReport": [f"{P}.GetReportRequest", f"{P}.Report"], f"{P}.Sel.GetOther": [f"{P}.GetOtherRequest", f"{P}.Other"]}
+    return {"name": "selective-map-value-only", "request_b64": apigen.req_b64(req), "selective_methods": [f"{P}.Sel.GetReport"], "io": io,
+            "features": ["types reachable only as map values / oneof member / nested type"]}
+
+
 def main():
+    ds = os.path.join(env.VERIF, "corpus", "C02", "selective")
+    os.makedirs(ds, exist_ok=True)
+    w = selective_witness()
+    with open(os.path.join(ds, w["name"] + ".json"), "w") as fh:
+        json.dump(w, fh, indent=1)
+    print(w["name"])
     d = os.path.join(env.VERIF, "corpus", "C02")
     os.makedirs(d, exist_ok=True)
     for name, files, togen, feats in [kitchen_sink(), pb2_clash(False), pb2_clash(True), pb2_clash(False, "fab.baz"),
